@@ -106,3 +106,9 @@ package driver
 //@   ensures [C17] other_files_untouched: forall f string :: f != c.file ==> ((f in c.d.fileConnCache) <==> old(f in c.d.fileConnCache))
 //@        && c.d.fileConnCache[f] == old(c.d.fileConnCache[f])
 //@   assert before Add: count_changes_under_the_lock: c.d.fileConnMtx.held == 2
+
+// ---------------------------------------------------------------------------------------------------------------
+// placeholder binding (C11): numInput is the highest placeholder number of a complete tree
+//@ func [C11] numInput(q) (result)
+//@   requires q != nil && ptOK(q.Expr)
+//@   ensures [C11] covers_every_placeholder: result >= 0 && (forall x *updogv1.Query_Expression_Equal :: leafOf(x, q.Expr) ==> x.Placeholder <= result)
